@@ -36,6 +36,7 @@ type vpBcastEnv struct {
 	// Stop is called (from another goroutine) while a rebroadcast callback is
 	// waiting for its peers
 	stopInCallback bool
+	stopInRequest  bool
 	stopStarted    bool
 	stopDone       chan struct{}
 	// rebroadcast callbacks wait here while the harness delivers another block
@@ -67,6 +68,15 @@ func VerifH_C15_handler() {
 				c.batch = e.batches
 			}
 			e.calls = append(e.calls, c)
+			if e.inRequest && e.stopInRequest && !e.stopStarted {
+				e.stopStarted = true
+				go func() {
+					e.b.Stop()
+					close(e.stopDone)
+				}()
+				<-e.b.quit // the shutdown has begun before the peers answer
+				vpQuiesce() // ... and the caller has been released
+			}
 			if !e.inRequest {
 				if e.holding {
 					<-e.hold
@@ -256,6 +266,19 @@ func VerifH_C15_handler() {
 		e.ntfns <- blockntfns.NewBlockConnected(wire.BlockHeader{}, 99)
 		<-e.stopDone // a Stop that never returns shows up as a deadlock
 		vpReach("stopped-during-a-rebroadcast")
+	}
+	// Stop called while the handler is serving a caller's broadcast request
+	// (inside the backend call, before the peers have answered): the caller is
+	// released and Stop returns
+	if vpParam("stopinrequest", 0) == 1 && !e.stopStarted && vpRange("stopDuringARequest", 0, 1) == 1 {
+		e.stopInRequest = true
+		e.stopDone = make(chan struct{})
+		e.inRequest = true
+		err := e.b.Broadcast(other)
+		e.inRequest = false
+		_ = err // the verdict or the shutdown error
+		<-e.stopDone // a Stop that never returns shows up as a deadlock
+		vpReach("stopped-during-a-broadcast-request")
 	}
 	// stopping returns, cancels the subscription, and later calls do not block
 	e.b.Stop()
